@@ -8,8 +8,9 @@
     fc <st> write <S> <buflen>           => <n> <buffer hex>            (buffer pre-filled with a5)
     fc <st> read  <hex> <S0>             => ok <n> <S> | err <e> <S>
     fc <st> rt    <S>                    => <marshalled hex> <e> <S'>   (FastMarshal, FastUnmarshal into a zero value)
-    nc <st> <S> <buflen> <w|nil>         => <n> <buffer hex> [<piece hex>:<remainCap>]*
-    nc str|bin <hex> <buflen> <w|nil>    => <n> <buffer hex> [<piece hex>:<remainCap>]*
+    nc <st> <S> <buflen> <w|nil> [cap]   => <n> <buffer hex> [<piece hex>:<remainCap>]*
+    nc str|bin <hex> <buflen> <w|nil> [cap] => <n> <buffer hex> [<piece hex>:<remainCap>]*
+       cap = c<extra> (make([]byte, buflen, buflen+extra)) | p<size> (big[:buflen] of a size-byte buffer)
     nclen <hex>                          => <StringLengthNocopy> <BinaryLengthNocopy> <StringLength> <BinaryLength>
   st ∈ base | baseresp | appex.   Every result can also be `PANIC <class>`.
   The map iteration order of a write is recovered from the implementation's output.
@@ -408,11 +409,13 @@ def handleFc (args : List String) (impl : String) : String × String :=
     withSt st (fun o => match o.parse s with
       | some p => hRt o p impl
       | none => ("bad-op", "na"))
-  | ["nc", "str", h, n, w] | ["nc", "bin", h, n, w] =>
+  -- an optional 6th token (c<extra> | p<size>) only describes the spare capacity of the destination
+  -- slice (cap > len); model and spec are about len: remainCap = len(buf[4:])
+  | ["nc", "str", h, n, w] | ["nc", "bin", h, n, w] | ["nc", "str", h, n, w, _] | ["nc", "bin", h, n, w, _] =>
     (match parseHex h, n.toNat?, parseW w with
      | some v, some n, some w => hNcStr v n w impl
      | _, _, _ => ("bad-op", "na"))
-  | ["nc", st, s, n, w] =>
+  | ["nc", st, s, n, w] | ["nc", st, s, n, w, _] =>
     withSt st (fun o => match o.parse s, n.toNat?, parseW w with
       | some p, some n, some w => hNc o p n w impl
       | _, _, _ => ("bad-op", "na"))
